@@ -962,12 +962,14 @@ pub fn idle() -> Idle {
 pub async fn until_idle<F: Future>(fut: F) -> Option<F::Output> {
     let mut fut = Box::pin(fut);
     let mut idle = Box::pin(idle());
+    // The idle signal is checked first and the future is NOT polled once more when
+    // it fires: a spurious extra poll would paper over a lost wake-up.
     std::future::poll_fn(move |cx| {
-        if let Poll::Ready(v) = fut.as_mut().poll(cx) {
-            return Poll::Ready(Some(v));
-        }
         if idle.as_mut().poll(cx).is_ready() {
             return Poll::Ready(None);
+        }
+        if let Poll::Ready(v) = fut.as_mut().poll(cx) {
+            return Poll::Ready(Some(v));
         }
         Poll::Pending
     })
